@@ -8,6 +8,8 @@ requests (space separated; sections introduced by single capital letters):
        N <new old>… | -
        G <gid>… | -
   response: ok rl=<hex> subs=<hex>,… maps=<hex | null>,…   |  dropped | fail | trap
+  c17.hvar.delta  <table request> D <map index> <gid> C <coord>… | -
+       response: ok <Fixed bits of the delta (delta << 16)> | err      (read-fonts advance_delta / item_delta)
   c17.hvar.store  same request; response: the retained old region indices and, per output subtable,
        itemCount/wordDeltaCount/regionIndexes (plain data, for diagnosis)
 -/
@@ -119,6 +121,18 @@ def handle (cmd : String) (args : List String) : Option String :=
     match subsetTable t with
     | .error e => some (errStr e)
     | .ok o => some (fmtStore o)
+  | "c17.hvar.delta" => do
+    -- <table request> D <map index> <gid> C <coord>… | -   (the reader of the theorems: readerDelta)
+    let (targs, rest) ← splitAt "D" args
+    let t ← parseTable targs
+    let (kd, cs) ← splitAt "C" rest
+    let [k, gid] ← parseNats? kd | none
+    let coords ← if cs = ["-"] then some [] else parseInts? cs
+    if t.subs.any (fun s => match s with | .bad => true | _ => false) then some "unsupported" else
+    match readerDelta t.regions (t.subs.map SubIn.toReader)
+        ((t.maps.getD k none).map MapIn.triple) (k == 0) gid coords with
+    | none => some "err"
+    | some v => some s!"ok {wrapI32 (v * 65536)}"
   | _ => none
 
 end FontVerif.Drv.C17Hvar
